@@ -77,13 +77,16 @@ _L1D_NOTE = ("Trusted: Lean kernel, standard axioms, hand model L1D.lean tied BI
              "sortedcontainers semantics; IEEE rounding outside the theorems (ordered fields).")
 CHECKS["C01"] = {
     "level": "proof",
-    "text": "Kernel-checked over every ordered field, every loss function (0/1 neighbours), every op list (tell, tell_pending, "
-            "tell_many both paths, remove_unfinished, ask): both loss containers stay in ItemSortedDict order, hence loss(real) is "
-            "inf exactly when a bound is unknown or no interval exists and otherwise the entry no other entry exceeds (rounded, "
-            "infinity-aware); further theorems (one entry per neighbouring pair, staleness of the output scale bounded by the factor, "
-            "proportional expected loss of pieces) as listed in Props/C01.lean. Tie: bit-exact lock-step. Search: every stored loss "
-            "recomputed from learner.data at every admissible output range.",
-    "design_ref": "DESIGN.md section 6 C01", "note": _L1D_NOTE, "technique": T,
+    "text": "Kernel-checked over every ordered field, EVERY loss function with any number of neighbouring intervals, every op "
+            "list valid in the property's sense (points in bounds, batch only once both end points are known or pending; tell, "
+            "tell_pending, tell_many both paths, remove_unfinished, ask): (1) one loss per neighbouring pair, both containers in "
+            "ItemSortedDict order; (2) VALUE INVARIANT: each stored loss is the loss function on the data held now at an output "
+            "scale between the last full recomputation and the current one, never more than the factor out of date; exact with "
+            "factor 1; (3) each piece cut out by pending points has the proportional share, infinite exactly where no evaluated "
+            "point exists on one side; (4) HEADLINE: the reported loss is the loss-function value of an interval maximal in rounded, "
+            "infinity-aware loss among all neighbouring pairs; infinite iff a bound is unknown / no interval / the head is infinite. "
+            "Tie: bit-exact lock-step. Search: every stored loss recomputed from learner.data at every admissible output range.",
+    "design_ref": "DESIGN.md section 6 C01 and 10.2", "note": _L1D_NOTE, "technique": T,
 }
 CHECKS["C02"] = {
     "level": "proof",
@@ -91,7 +94,7 @@ CHECKS["C02"] = {
             "or pending), every loss function and request size: ask returns exactly n distinct in-domain points none of which is "
             "evaluated or pending; missing bounds first; empty learner samples uniformly; the rest are equal subdivisions of pairwise "
             "different intervals between neighbouring known points; greedy water-filling is optimal for every monotone rounding "
-            "(abstract theorem; its link to the concrete loop is listed under partial_theorems until proved). Tie: bit-exact "
+            "(proved for the concrete loop: for every non-negative loss function the allocation ask computes is optimal, c02_allocation_optimal_nonneg). Tie: bit-exact "
             "lock-step of ask results. Search: freshness/equal parts/single-move/brute-force optimality on every reached state.",
     "design_ref": "DESIGN.md section 6 C02", "note": _L1D_NOTE, "technique": T,
 }
